@@ -1,7 +1,7 @@
 (* Run.v — top-level dispatch: TL (TN machine :: args).
    Machines: 1 CMS mem, 3 Bloom mem, 5 HLL mem, 7 Cuckoo mem. *)
 From GX.Model Require Import Base.
-From GX.Runner Require Import RunCMS RunCMS2 RunBloom RunHLL RunCuckoo RunTopK RunRedisCMS RunRedisHLL RunRedisBloom RunRedisTopK RunRedisCuckoo RunSizing RunSched.
+From GX.Runner Require Import RunCMS RunCMS2 RunBloom RunHLL RunCuckoo RunTopK RunRedisCMS RunRedisHLL RunRedisBloom RunRedisTopK RunRedisCuckoo RunSizing RunSched RunJson.
 
 Definition run_case (c : tok) : tok :=
   match tok_L c with
@@ -17,5 +17,6 @@ Definition run_case (c : tok) : tok :=
   | TN 10 :: args => run_rtopk_case args
   | TN 11 :: args => run_sizing_case args
   | TN 12 :: args => run_sched_case args
+  | TN 13 :: args => run_json_case args
   | _ => T_INVALID
   end.
